@@ -31,7 +31,7 @@ CHECKS = {
          "vocabulary (WatchProp.tla: exact prefix of the committed log, selector rewrite, errored only if lagged, nothing "
          "missing when quiet); TLC-simulated command sequences (eager and burst publishes, all watch kinds and options, "
          "stalled consumers) drive the real in-memory collection inside a synctest bubble for several history "
-         "configurations, and every received event is judged by TLC (TraceWatch.tla). Linearization-point traces: build-tag guarded hooks inside the in-memory collection (one line per critical section, written under the collection mutex) are switched on while the harness drivers AND the repository's own test suites run; TLC judges every line against the store / committed-log / watch vocabulary (TraceInmem.tla).",
+         "configurations, and every received event is judged by TLC (TraceWatch.tla). Linearization-point traces: build-tag guarded hooks inside the in-memory collection (one line per critical section, written under the collection mutex) are switched on while the harness drivers AND the repository's own test suites run; TLC judges every line against the store / committed-log / watch vocabulary (TraceInmem.tla). A threaded driver (real scheduler: concurrent writers, subscribers of every kind and option, slow and stalled consumers, bookmark resumes, a fault-injecting backing store) is judged through the same hooks.",
     note="Trusted: TLC, synctest quiescence, the event projection of harness/c02. Watcher read timing on the real code "
          "is eager or post-burst (GOMAXPROCS(1)); all read interleavings are exhaustive only in the model.",
     technique="TLA+ ring/watcher model + TLC model checking; TLC-simulated schedules replayed in a synctest bubble; TLC trace validation",
@@ -42,7 +42,7 @@ CHECKS = {
          "watches), tries malformed / foreign-incarnation / ahead / too-old bookmarks and every tail size 1..MaxCap+2 after "
          "each TLC-generated history; TLC decides accept/reject (BookmarkAccepted), the invalid-bookmark class, the exact "
          "resumed suffix and the exact tail contents; the ring model proves RecentBookmarksAccepted and AcceptedBookmarkRetained. "
-         "BootstrapBookmark combined with tail / start-from-bookmark is part of model, generator, judge and driver (the initial Noop carries the bookmark right before the first replayed event). Linearization-point traces: build-tag guarded hooks inside the in-memory collection (one line per critical section, written under the collection mutex) are switched on while the harness drivers AND the repository's own test suites run; TLC judges every line against the store / committed-log / watch vocabulary (TraceInmem.tla).",
+         "BootstrapBookmark combined with tail / start-from-bookmark is part of model, generator, judge and driver (the initial Noop carries the bookmark right before the first replayed event). Linearization-point traces: build-tag guarded hooks inside the in-memory collection (one line per critical section, written under the collection mutex) are switched on while the harness drivers AND the repository's own test suites run; TLC judges every line against the store / committed-log / watch vocabulary (TraceInmem.tla). The threaded watch driver (bookmark resumes and tails under the real scheduler) is judged through the same hooks.",
     note="Trusted: TLC, bookmark position decoding in the harness (last 8 bytes big endian). Tail+selector combinations not driven.",
     technique="TLA+ ring model + TLC model checking; model-based replay with exhaustive resume/tail probes; TLC trace validation",
     ref="5.12"),
@@ -125,7 +125,7 @@ CHECKS = {
          "current state of its inputs` and `every mapped change reached the primaries its mapper names`, on five controller "
          "configurations. TLC-simulated schedules (writes, batch flushes, reconcile releases, late starts, failing reconciles) "
          "drive the real runtime with probe controllers in a synctest bubble through an interposing CoreState that holds and "
-         "merges aggregated watch batches; what every reconcile read and a final quiet point are judged by TLC (TraceRuntime).",
+         "merges aggregated watch batches; what every reconcile read and a final quiet point are judged by TLC (TraceRuntime). The delivery goroutine of the runtime is parked at a build-tag guarded scheduler gate and released by the schedule; batches that carry nothing (bookmarks) are modelled and injected.",
     note="Trusted: TLC, synctest quiescence (quiet = nothing recorded during 3 virtual minutes after everything was released). "
          "Dedup/delivery goroutine steps run eagerly on the code; their interleavings are exhaustive only in the model.",
     technique="TLA+ pipeline model + TLC; schedule replay on the real runtime in a synctest bubble; TLC trace validation",
@@ -192,7 +192,7 @@ CHECKS = {
          "memory = disk = specification, failed writes invisible to memory, disk and watchers, state after restart = "
          "acknowledged prefix (+ the in-flight operation at most), all fields and creation time intact, later operations "
          "continue from it. "
-         "The load is modelled as LoadStart / LoadItem* / LoadOK|LoadFail with a concurrent reader (ReadsSeeDisk); restarts whose first access is made by two clients at once (client A parked inside Load after 0 or 1 injected resources, client B issuing get / list / create) are driven and judged (raceread).",
+         "The load is modelled as LoadStart / LoadItem* / LoadOK|LoadFail with a concurrent reader (ReadsSeeDisk); restarts whose first access is made by two clients at once (client A parked inside Load after 0 or 1 injected resources, client B issuing get / list / create) are driven and judged (raceread). Several clients writing at once to separate namespaces through one file and one marshaler stacking are judged per namespace after a reopen; hook traces of the driver show every rejected write from inside the collection.",
     note="Trusted: TLC, bbolt transaction atomicity; crashes are in-process (state dropped, file closed/re-opened) at the "
          "decorator's crash points; SIGKILL inside bbolt transactions is not driven.",
     technique="TLA+ persistence model + TLC; fault/crash-annotated replay on inmem+bbolt; TLC trace validation",
